@@ -220,7 +220,24 @@ def _run(repo, chk):
     chk.ob('e', rd.ref, 'only connected clients are read from', q is None, loc(rd, recv[0].ast), discr='read-live-only')
     reads = [n for n in gr.nodes if n.kind == 'stmt' and pat.fires(n.ast, 'read')]
     closes = [n for n in gr.nodes if n.kind == 'stmt' and any(r == 'self' and [src(a) for a in c.args] == [s3] for r, c in pat.method_calls(n.ast, 'close'))]
-    for e in [e for n in gr.nodes if n.kind == 'test' and src(n.ast) == dv for e in n.succ]:
+    # a TLS record is decrypted as a whole: after a read that returned data, what is left of the record inside the SSL object is read too (no poller reports it)
+    for f_, rcv in ((rd, lambda c: (call_name(c) or '') == f'{s3}.recv'), (repo.func(SOCKETS, 'Client._read'), lambda c: (call_name(c) or '').endswith(('._ssock.read', '._sock.recv')))):
+        chk.touch(f_)
+        gx = f_.cfg()
+        loops = [n for n in gx.nodes if n.kind == 'test' and isinstance(n.ast, ast.Call) and (call_name(n.ast) or '').endswith('.pending') and
+                 any(e.kind == 'T' and any(k == 'loop' for k, _a in e.dst.ctx) for e in n.succ)]
+        inner = [n for n in gx.nodes if n.kind == 'stmt' and any(k == 'loop' for k, _a in n.ctx) and any(rcv(c) for c in calls_in(n.ast))]
+        fired = [n for n in gx.nodes if n.kind == 'stmt' and any(k == 'loop' for k, _a in n.ctx) and pat.fires(n.ast, 'read')]
+        first = [n for n in gx.nodes if n.kind == 'stmt' and not any(k == 'loop' for k, _a in n.ctx) and pat.fires(n.ast, 'read')]
+        okp = bool(loops) and bool(inner) and bool(fired) and all(any(Q.reaches(r_, lp) for lp in loops) for r_ in first)
+        chk.ob('e', f_.ref, 'after a read that returned data the rest of a TLS record pending inside the SSL object is read and delivered as well', okp, loc(f_, f_.node),
+               discr='tls-record-drained')
+    def in_while_test(a):
+        p_ = getattr(a, '_parent', None)
+        while p_ is not None and not isinstance(p_, ast.stmt):
+            p_ = getattr(p_, '_parent', None)
+        return isinstance(p_, ast.While)
+    for e in [e for n in gr.nodes if n.kind == 'test' and src(n.ast) == dv and not any(k == 'loop' for k, _a in n.ctx) and not in_while_test(n.ast) for e in n.succ]:
         grp, label = (reads, 'data → read event') if e.kind == 'T' else (closes, 'empty read → close (deferred while data is buffered)')
         p = Q.escapes(gr, [e.dst], lambda n: n in grp, exc=()) if e.dst not in grp else None
         chk.ob('e', rd.ref, label, p is None and bool(grp), loc(rd, e.src.ast), discr=f'outcome:{e.kind}')
